@@ -305,12 +305,17 @@ Proof.
   split; [lia|]. apply IH; lia.
 Qed.
 
+(** in place, destination stride <= source stride: the source cursor stays at or ahead of the destination *)
+Lemma safe_inplace_pack w se de n : forall s d buffered, 0 < w -> w <= de -> de <= se -> buffered = true ->
+  d <= s -> safe w se de n buffered s d.
+Proof.
+  induction n as [|n IH]; intros s d b Hw Hde Hse Hb Hds; cbn; [exact I|].
+  split; [now left|]. split; [apply later_ok_above; lia|]. apply IH; try assumption. lia.
+Qed.
+
 Lemma safe_inplace w se n : forall s buffered, 0 < w -> w <= se -> buffered = true ->
   safe w se se n buffered s s.
-Proof.
-  induction n as [|n IH]; intros s b Hw Hse Hb; cbn; [exact I|].
-  split; [now left|]. split; [apply later_ok_above; lia|]. apply IH; assumption.
-Qed.
+Proof. intros s b Hw Hse Hb. apply safe_inplace_pack; try assumption; lia. Qed.
 
 Lemma safe_dest_below w se de n : forall s d buffered, 0 < w -> w <= se -> w <= de ->
   d + (Z.of_nat n - 1) * de + w <= s -> safe w se de n buffered s d.
@@ -399,7 +404,7 @@ Definition eff_de (w ss ds : Z) := snd (eff w ss ds).
 Lemma in_domain_elim w s d n ss ds : in_domain w s d n ss ds = true ->
   let se := eff_se w ss ds in let de := eff_de w ss ds in
   w <= se /\ w <= de /\ 0 < n /\
-  ((s = d /\ se = de) \/ d + (n - 1) * de + w <= s \/ s + (n - 1) * se + w <= d).
+  ((s = d /\ de <= se) \/ d + (n - 1) * de + w <= s \/ s + (n - 1) * se + w <= d).
 Proof.
   unfold in_domain, eff_se, eff_de. destruct (eff w ss ds) as [se de]. cbn.
   rewrite !andb_true_iff, !orb_true_iff, !andb_true_iff. lia.
@@ -411,7 +416,7 @@ Lemma domain_safe w s d n ss ds buffered : 0 < w -> in_domain w s d n ss ds = tr
 Proof.
   intros Hw Hd Hb. apply in_domain_elim in Hd. cbn in Hd.
   destruct Hd as (H1 & H2 & H3 & [[-> E]|[H4|H4]]).
-  - rewrite <- E. destruct Hb as [Hb|Hb]; [|congruence]. apply safe_inplace; assumption.
+  - destruct Hb as [Hb|Hb]; [|congruence]. apply safe_inplace_pack; try assumption; lia.
   - apply safe_dest_below; try assumption. rewrite Z2Nat.id by lia. exact H4.
   - apply safe_src_below; try assumption. rewrite Z2Nat.id by lia. exact H4.
 Qed.
